@@ -76,15 +76,30 @@ def coq_flags():
     return '-Q Model M -Q Proofs P -Q Props Props -Q Generated G -Q Extract X'
 
 
-def build(tier='quick', generated_hook=None):
+def build(tier='quick', generated_hook=None, pid=None):
     """(Re)build the Coq development and the extracted driver.  Returns (ok, log)."""
     log = []
     os.makedirs(os.path.join(COQ, 'Generated'), exist_ok=True)
     lock = open(os.path.join(VERIF, '.build.lock'), 'w')
     fcntl.flock(lock, fcntl.LOCK_EX)
     try:
-        if generated_hook:
-            generated_hook()
+        # every Generated/*.v is rewritten from the library under test before every build, whichever property is
+        # being checked: a file left behind by a run against another tree must never decide this one
+        hooks = []
+        for modname in ('c09', 'c14'):
+            try:
+                hooks.append(__import__(modname).generated_hook)
+            except Exception as e:          # noqa
+                log.append('generated hook of %s not available: %r' % (modname, e))
+        if generated_hook and generated_hook not in hooks:
+            hooks.append(generated_hook)
+        for h in hooks:
+            try:
+                h()
+            except Exception as e:          # noqa
+                if h is generated_hook:
+                    raise
+                log.append('generated hook %r failed: %r' % (h, e))
         vfiles = []
         for d in ('Model', 'Proofs', 'Props', 'Generated', 'Extract'):
             dd = os.path.join(COQ, d)
@@ -99,10 +114,20 @@ def build(tier='quick', generated_hook=None):
             open(stamp, 'w').write(listing)
         # (the thorough tier's from-scratch build happens in a private copy, see clean_copy_build: the shared tree is
         # never cleaned, other checks may be using it)
-        rc, out = _run('timeout 1500 make -j16', COQ, 1520)
+        rc, out = _run('timeout 1500 make -k -j16', COQ, 1520)
         log.append(out)
         if rc != 0:
-            return False, '\n'.join(log)
+            # some file does not compile.  A broken proof belongs to the properties whose statements depend on it:
+            # this property's check goes on iff its own statements and the executable model still build
+            if pid is None:
+                return False, '\n'.join(log)
+            # the executable model must build; whether Props/<pid>.v still checks is decided by proof_obligations
+            # (a broken statement of this property is then reported AFTER the search for a concrete failing input)
+            rc, out = _run('timeout 1500 make -j16 %s' % ' '.join(_needed_targets(pid)[1:]), COQ, 1520)
+            log.append(out)
+            if rc != 0:
+                return False, '\n'.join(log)
+            _run('timeout 1500 make -j16 %s' % _needed_targets(pid)[0], COQ, 1520)
         rc, out = _run('timeout 300 make', OCAML, 320)
         log.append(out)
         if rc != 0 or not os.path.exists(DRIVER):
@@ -110,6 +135,15 @@ def build(tier='quick', generated_hook=None):
         return True, '\n'.join(log)
     finally:
         fcntl.flock(lock, fcntl.LOCK_UN)
+
+
+def _needed_targets(pid, base=None):
+    base = base or COQ
+    t = ['Props/%s.vo' % pid]
+    ex = os.path.join(base, 'Extract')
+    if os.path.isdir(ex):
+        t += sorted('Extract/%s.vo' % f[:-2] for f in os.listdir(ex) if f.endswith('.v'))
+    return t
 
 
 def forbidden_scan():
@@ -126,7 +160,7 @@ def forbidden_scan():
     return bad
 
 
-def clean_copy_build():
+def clean_copy_build(pid=None):
     """thorough tier: copy the sources of the development into a private directory and build everything from
     scratch there (full .vo build).  Returns (ok, directory, log); the caller removes the directory."""
     import shutil
@@ -150,7 +184,10 @@ def clean_copy_build():
         fcntl.flock(lock, fcntl.LOCK_UN)
     cq = os.path.join(dst, 'coq')
     rc, out = _run('coq_makefile -f _CoqProject %s -o Makefile' % ' '.join(vfiles), cq, 120)
-    rc, out2 = _run('timeout 2400 make -j16', cq, 2420)
+    rc, out2 = _run('timeout 2400 make -k -j16', cq, 2420)
+    if rc != 0 and pid is not None:
+        rc, out3 = _run('timeout 2400 make -j16 %s' % ' '.join(_needed_targets(pid, cq)), cq, 2420)
+        out2 += out3
     return rc == 0, dst, (out + out2)[-4000:]
 
 
@@ -179,7 +216,7 @@ def proof_obligations(pid, tier='quick'):
         # from-scratch build of the whole development in a private copy, Props/<pid>.v re-checked there by coqc
         # (Print Assumptions) and by the independent checker coqchk
         import shutil
-        okc, dst, logc = clean_copy_build()
+        okc, dst, logc = clean_copy_build(pid)
         try:
             res['checker_cmd'] = ('(private copy of coq/) coq_makefile && make -j16 && coqc %s Props/%s.v && coqchk -o %s Props.%s'
                                   % (coq_flags(), pid, coq_flags(), pid))
